@@ -420,6 +420,63 @@ def atStartOfDay (l : Int) : R Int := do
     if dayOf loc ≠ dayOf l then .error .skippedTime else .ok iv.s
   | _ => buildInstant l m.early
 
+/-! ### `ZoneLocalMapping.single/first/last` and the stock resolvers (`Resolvers.*`, `create_mapping_resolver`)
+    Results are the instants of the returned `ZonedDateTime`s (`to_instant()`), as everywhere in this model. -/
+
+/-- `ZoneLocalMapping.single()` -/
+def Mapping.single (m : Mapping) (l : Int) : R Int :=
+  match m.count with
+  | 0 => .error .skippedTime
+  | 1 => buildInstant l m.early
+  | _ => .error .ambiguousTime
+
+/-- `ZoneLocalMapping.first()` -/
+def Mapping.first (m : Mapping) (l : Int) : R Int :=
+  match m.count with
+  | 0 => .error .skippedTime
+  | _ => buildInstant l m.early
+
+/-- `ZoneLocalMapping.last()` -/
+def Mapping.last (m : Mapping) (l : Int) : R Int :=
+  match m.count with
+  | 0 => .error .skippedTime
+  | 1 => buildInstant l m.early
+  | _ => buildInstant l m.late
+
+/-- the three stock `AmbiguousTimeResolver`s -/
+inductive AmbRes | earlier | later | throw
+  deriving DecidableEq, Repr
+
+/-- the four stock `SkippedTimeResolver`s -/
+inductive SkipRes | endOfBefore | startOfAfter | forwardShifted | throw
+  deriving DecidableEq, Repr
+
+/-- a stock skipped-time resolver applied to the mapping of a skipped local instant `l`:
+    `return_end_of_interval_before` = `ZonedDateTime(instant = before.end - 1ns)`,
+    `return_start_of_interval_after` = `ZonedDateTime(instant = after.start)`,
+    `return_forward_shifted` = `OffsetDateTime(l, before.wall).with_offset(after.wall)` (instant `l - before.wall`) -/
+def SkipRes.apply (s : SkipRes) (m : Mapping) (l : Int) : R Int :=
+  match s with
+  | .endOfBefore => if !m.early.hasEnd then .error .runtimeError else untrusted (m.early.e - 1)
+  | .startOfAfter => if !m.late.hasStart then .error .runtimeError else untrusted m.late.s
+  | .forwardShifted => untrusted (l - m.early.wall * NPS)
+  | .throw => .error .skippedTime
+
+/-- a stock ambiguous-time resolver applied to `(mapping.first(), mapping.last())` -/
+def AmbRes.apply (a : AmbRes) (m : Mapping) (l : Int) : R Int :=
+  match a with
+  | .earlier => buildInstant l m.early
+  | .later => buildInstant l m.late
+  | .throw => .error .ambiguousTime
+
+/-- `zone.resolve_local(ldt, Resolvers.create_mapping_resolver(a, s))` -/
+def resolveLocal (a : AmbRes) (s : SkipRes) (l : Int) : R Int := do
+  let m ← mapLocal get l
+  match m.count with
+  | 0 => s.apply m l
+  | 1 => buildInstant l m.early
+  | _ => a.apply m l
+
 end MapLocal
 
 /-! ## walking a zone (get_zone_intervals) -/
